@@ -176,6 +176,13 @@ func c09GenGroups(schemeName string, seed uint64, thorough bool) []*c09Group {
 			add(2, "e2-proposed", v[0], v[1], "abort")
 		}
 	}
+	// the retry at the same epoch: the attempt for epoch 2 has failed / timed out / been aborted on the victim, the
+	// next proposal is again judged against the group of epoch 1
+	for _, stage := range []string{"e2-failed", "e2-timedout", "e2-aborted"} {
+		for _, v := range [][2]string{{"remainer", "C"}, {"leaver", "D"}} {
+			add(2, stage, v[0], v[1], "proposal")
+		}
+	}
 	// duplicate-address forgeries: current group members only (a newcomer has no recorded key to prefer)
 	for _, v := range victims {
 		if v[0] != "joiner" {
